@@ -1085,7 +1085,7 @@ def build_soc(std, ic, t, dw=32):
     plat = SimPlatform("SIM", _SOC_IO)
     envshim.quiet_stderr()
     soc = SoCMini(plat, clk_freq=int(1e6), bus_standard=std, bus_data_width=dw, bus_interconnect=ic, bus_timeout=t)
-    soc.add_ram("ram", origin=0x10000000, size=0x100, contents=[0x11223344, 0x55667788, 0x99aabbcc])
+    soc.add_ram("ram", origin=0x10000000, size=0x100, contents=ram_words(dw))
     if std == "wishbone":
         m = wishbone.Interface(data_width=dw, address_width=32, addressing="word")
     elif std == "axi-lite":
@@ -1125,7 +1125,7 @@ class SocTb:
         limit = limit or (self.t + 40)
         ones = (1 << self.dw) - 1
         if std == "wishbone":
-            n.set(m.adr, addr >> 2)
+            n.set(m.adr, addr // (self.dw // 8))
             n.set(m.we, int(write))
             n.set(m.dat_w, data)
             n.set(m.sel, (1 << (self.dw // 8)) - 1)
@@ -1203,22 +1203,28 @@ class SocTb:
 
 RAM0 = 0x10000000
 RAM_WORDS = [0x11223344, 0x55667788, 0x99aabbcc]
+
+
+def ram_words(dw):
+    """Initial RAM content, one entry per bus word (upper lanes carry a different pattern on wide buses)."""
+    return [w | ((w ^ 0x5a5a5a5a) << 32 if dw > 32 else 0) for w in RAM_WORDS]
 UNMAPPED = (0x20000000, 0x40000010, 0x1fffff00)
 
 
-def soc_scenario(std, ic, t, rng, nops=14):
-    """Random interleaving of unmapped and RAM accesses.  Returns (list of problems, number of timed-out ops)."""
-    tb = SocTb(std, ic, t)
+def soc_scenario(std, ic, t, rng, nops=14, dw=32):
+    """Random interleaving of unmapped and RAM accesses.  Returns (list of problems, number of timed-out ops).
+    The error indication of a timed-out read is checked on the full bus width."""
+    tb = SocTb(std, ic, t, dw)
     exact = t if std == "wishbone" else t + 2
     problems = []
     timeouts = 0
-    shadow = list(RAM_WORDS)
+    shadow = ram_words(dw)
     for k in range(nops):
         r = rng.random()
         if r < 0.45:
             addr = rng.choice(UNMAPPED)
             wr = rng.random() < 0.4
-            lat, d, err = tb.access(addr, write=wr, data=rng.getrandbits(32))
+            lat, d, err = tb.access(addr, write=wr, data=rng.getrandbits(dw))
             timeouts += 1
             if lat is None:
                 problems.append("op %d: %s of unmapped %#x not terminated within %d cycles" % (k, "write" if wr else "read", addr, t + 40))
@@ -1226,12 +1232,14 @@ def soc_scenario(std, ic, t, rng, nops=14):
             if lat != exact:
                 problems.append("op %d: unmapped access terminated after %d cycles, exact bound %d" % (k, lat, exact))
             if not err:
-                problems.append("op %d: unmapped access terminated without error indication (data %r)" % (k, d))
+                problems.append("op %d: unmapped %s terminated without the error indication (all ones on %d bits%s): "
+                                "data %s" % (k, "write" if wr else "read", dw, "" if std == "wishbone" else " + SLVERR",
+                                             hex(d) if d is not None else None))
         else:
             i = rng.randrange(len(shadow))
             wr = rng.random() < 0.4
-            val = rng.getrandbits(32)
-            lat, d, err = tb.access(RAM0 + 4 * i, write=wr, data=val)
+            val = rng.getrandbits(dw)
+            lat, d, err = tb.access(RAM0 + (dw // 8) * i, write=wr, data=val)
             if lat is None:
                 problems.append("op %d: RAM access not completed (after %d timeouts)" % (k, timeouts))
                 break
